@@ -65,8 +65,10 @@ GEOMS = {
     "km55xz": ((5, 5), (2e3, -7e3), (1e3, 400.0), ("x", "z"), ("m", "m")),
     "um43yx": ((4, 3), (0.1e-6, -0.7e-6), (0.3e-6, 0.7e-6), ("y", "x"), ("m", "s")),
     "far23": ((2, 3), (1e4 + 0.1, 7.7), (0.1, 1 / 3), ("x", "y"), ("m", "m")),
+    # corners given as Python ints (integer-typed corner arrays); divided by the multiplier 1e3 they are not integers
+    "int-km43": ((4, 3), (-1500, 250), (1000, 500), ("x", "y"), ("m", "m")),
 }
-GEOM_QUICK = ["nm32", "m14ab", "km55xz"]
+GEOM_QUICK = ["nm32", "m14ab", "km55xz", "int-km43"]
 MULTS = [None, 1e-9, 1, 1e3, 1e-6]
 PREFIX = {-24: ["y"], -21: ["z"], -18: ["a"], -15: ["f"], -12: ["p"], -9: ["n"], -6: ["u", "µ", "μ", r"\mu ", r"$\mu$"],
           -3: ["m"], 0: [""], 3: ["k"], 6: ["M"], 9: ["G"], 12: ["T"], 15: ["P"], 18: ["E"], 21: ["Z"], 24: ["Y"]}
@@ -733,6 +735,8 @@ def unit_call(ctx):
     vkind = ctx.choose("valid", ["coded", "all"])
     mult = ctx.choose("multiplier", MULTS[:4] if quick else MULTS)
     own = ctx.choose("axes", ["given", "created-by-the-plot"])
+    # non-initial state: ANOTHER field (other validity) has been plotted before with the very same keyword dictionaries
+    earlier = ctx.choose("plotted-before-with-the-same-keyword-dicts", ["nothing", "field-with-other-validity"])
     geom = Geom(gname)
     valid = _validity(geom.n, vkind)
     f, inplane = make_field(geom, layout, valid, ctx.seed)
@@ -742,6 +746,15 @@ def unit_call(ctx):
     inst = ctx.key()
     site = "mpl.__call__"
     plt.close("all")
+    if earlier != "nothing":
+        skw, vkw = {"cmap": "viridis"}, {"use_color": False}
+        kw["scalar_kw"], kw["vector_kw"] = skw, vkw
+        other_valid = _validity(geom.n, "all" if vkind == "coded" else "coded")
+        f0, _ = make_field(geom, layout, other_valid, ctx.seed + 1)
+        fig0, ax0 = new_axes()
+        ctx.step(1, "earlier plot of another field with the same scalar_kw / vector_kw objects")
+        f0.mpl(ax=ax0, **kw)
+        plt.close("all")
     if own == "given":
         fig, ax = new_axes()
     try:
